@@ -3,6 +3,7 @@
 //! failure into a concrete input on the real code, and on every run to validate the cheap
 //! trusted std facts the proofs assume.
 mod c03;
+mod c04;
 mod c16;
 mod c17;
 mod lexers;
@@ -24,6 +25,7 @@ fn main() {
                 "C16" => c16::search(obl).into_iter().collect(),
                 "C17" => c17::search(obl),
                 "C03" => c03::search(obl),
+                "C04" => c04::search(obl),
                 _ => { eprintln!("no witness search for {prop}"); std::process::exit(2) }
             };
             if found.is_empty() { println!("NO-WITNESS"); }
@@ -37,6 +39,7 @@ fn main() {
                 ("C16", Some(i)) => c16::check_one(&i),
                 ("C17", Some(i)) => c17::check_one(&i),
                 ("C03", Some(i)) => c03::check_one(&i),
+                ("C04", Some(i)) => c04::check_one(&i),
                 _ => { println!("REPLAY: nothing to re-run (no concrete input in file)"); std::process::exit(0) }
             };
             match r {
